@@ -14,7 +14,7 @@ import (
 func selfBench(fsName, tier, prof string) {
 	verifrt.SetMode(verifrt.ModeSeq)
 
-	s := &sys{fsName: fsName, ops: buildOps(tier)}
+	s := factory(tier)(fsName).(*sys)
 
 	if prof != "" {
 		f, _ := os.Create(prof)
@@ -32,7 +32,7 @@ func selfBench(fsName, tier, prof string) {
 		return
 	}
 
-	for i := range s.ops {
+	for i := 0; i < s.NumOps(); i++ {
 		sr := s.Step(i)
 		viols += len(sr.Viols)
 
